@@ -103,3 +103,287 @@ Theorem C18_restricted_parent_none : forall x len, x < 2 ^ 62 -> restricted_pare
              sp_node_start p <= x < sp_node_start p + 2 ^ (level p + 1) - 1) -> len <= p.
 Proof. exact restricted_parent_none. Qed.
 Print Assumptions C18_restricted_parent_none.
+
+(* ===== gap audit: "for every node id" =====
+   The theorems above are stated for x < 2^62, n <= 10, h <= 60.  Below the same conclusions
+   with no bound at all where the model statement holds over all of N, for every u64 id whose
+   successor does not overflow (x < 2^64 - 1) where word-level wrapping is involved, with
+   explicit refutations at the first id / shift where a statement stops holding, and the
+   agreement of node_range / count_below / post_order_range with the explicit enumeration
+   complete_post (level x) (sp_node_start x) of the complete subtree below x.
+   Proofs in Proofs/GapNode.v. *)
+From BaoV Require Import Proofs.GapNode.
+
+(* -- levels of u64 ids -- *)
+Theorem C18_gap_level_u64 : forall x, x < 2 ^ 64 - 1 -> level x <= 63.
+Proof. exact gap_level_u64. Qed.
+Print Assumptions C18_gap_level_u64.
+
+Theorem C18_gap_level63_unique : forall x, x < 2 ^ 64 -> level x = 63 -> x = 2 ^ 63 - 1.
+Proof. exact gap_level63_unique. Qed.
+Print Assumptions C18_gap_level63_unique.
+
+(* -- children -- *)
+Theorem C18_gap_children : forall x, 0 < level x -> level x <> 64 ->
+  left_child x = Some (sp_left x) /\ right_child x = Some (sp_right x) /\
+  parent (sp_left x) = Some x /\ parent (sp_right x) = Some x /\
+  level (sp_left x) = level x - 1 /\ level (sp_right x) = level x - 1.
+Proof. exact gap_children. Qed.
+Print Assumptions C18_gap_children.
+
+Theorem C18_gap_children_u64 : forall x, x < 2 ^ 64 - 1 -> 0 < level x ->
+  left_child x = Some (sp_left x) /\ right_child x = Some (sp_right x) /\
+  parent (sp_left x) = Some x /\ parent (sp_right x) = Some x /\
+  level (sp_left x) = level x - 1 /\ level (sp_right x) = level x - 1.
+Proof. exact gap_children_u64. Qed.
+Print Assumptions C18_gap_children_u64.
+
+Theorem C18_gap_children_fit_u64 : forall x, x < 2 ^ 64 - 1 -> 0 < level x ->
+  sp_left x < x /\ x < sp_right x /\ sp_right x < 2 ^ 64 - 1.
+Proof. exact gap_children_fit_u64. Qed.
+Print Assumptions C18_gap_children_fit_u64.
+
+(* refuted at level 64, i.e. at u64::MAX (not a usable id: self.0 + 1 overflows in the Rust) *)
+Theorem C18_gap_children_top_refuted : exists x,
+  x = 2 ^ 64 - 1 /\ 0 < level x /\ level x = 64 /\
+  parent (sp_left x) = None /\ parent (sp_right x) = None.
+Proof. exact gap_children_top_refuted. Qed.
+Print Assumptions C18_gap_children_top_refuted.
+
+Theorem C18_gap_children_nonvacuous :
+  2 ^ 63 - 1 < 2 ^ 64 - 1 /\ 0 < level (2 ^ 63 - 1) /\ level (2 ^ 63 - 1) <> 64 /\
+  left_child (2 ^ 63 - 1) = Some (2 ^ 62 - 1) /\ right_child (2 ^ 63 - 1) = Some (2 ^ 63 + 2 ^ 62 - 1).
+Proof. exact gap_children_nonvacuous. Qed.
+Print Assumptions C18_gap_children_nonvacuous.
+
+(* -- parent -- *)
+Theorem C18_gap_parent : forall x, level x <> 63 ->
+  parent x = Some (sp_parent x) /\ level (sp_parent x) = level x + 1 /\
+  (sp_left (sp_parent x) = x \/ sp_right (sp_parent x) = x).
+Proof. exact gap_parent. Qed.
+Print Assumptions C18_gap_parent.
+
+Theorem C18_gap_parent_top : forall x, level x = 63 -> parent x = None.
+Proof. exact gap_parent_top. Qed.
+Print Assumptions C18_gap_parent_top.
+
+Theorem C18_gap_parent_u64 : forall x, x < 2 ^ 64 - 1 -> x <> 2 ^ 63 - 1 ->
+  parent x = Some (sp_parent x) /\ level (sp_parent x) = level x + 1 /\
+  (sp_left (sp_parent x) = x \/ sp_right (sp_parent x) = x) /\
+  sp_parent x < 2 ^ 64 - 1.
+Proof. exact gap_parent_u64. Qed.
+Print Assumptions C18_gap_parent_u64.
+
+Theorem C18_gap_parent_nonvacuous :
+  2 ^ 64 - 2 < 2 ^ 64 - 1 /\ 2 ^ 64 - 2 <> 2 ^ 63 - 1 /\ level (2 ^ 64 - 2) <> 63 /\
+  parent (2 ^ 64 - 2) = Some (2 ^ 64 - 3) /\
+  level (2 ^ 63 - 1) = 63 /\ parent (2 ^ 63 - 1) = None.
+Proof. exact gap_parent_nonvacuous. Qed.
+Print Assumptions C18_gap_parent_nonvacuous.
+
+(* -- ranges, next left ancestor: no bound -- *)
+Theorem C18_gap_chunk_range : forall x, chunk_range x = (sp_chunk_start x, sp_chunk_end x).
+Proof. exact gap_chunk_range. Qed.
+Print Assumptions C18_gap_chunk_range.
+
+Theorem C18_gap_chunk_range_split : forall x, 0 < level x ->
+  fst (chunk_range (sp_left x)) = fst (chunk_range x) /\
+  snd (chunk_range (sp_left x)) = mid x /\
+  fst (chunk_range (sp_right x)) = mid x /\
+  snd (chunk_range (sp_right x)) = snd (chunk_range x).
+Proof. exact gap_chunk_range_split. Qed.
+Print Assumptions C18_gap_chunk_range_split.
+
+Theorem C18_gap_chunk_range_split_nonvacuous :
+  0 < level (2 ^ 63 - 1) /\ chunk_range (2 ^ 63 - 1) = (0, 2 ^ 64) /\
+  chunk_range (sp_left (2 ^ 63 - 1)) = (0, 2 ^ 63) /\
+  chunk_range (sp_right (2 ^ 63 - 1)) = (2 ^ 63, 2 ^ 64).
+Proof. exact gap_chunk_range_split_nonvacuous. Qed.
+Print Assumptions C18_gap_chunk_range_split_nonvacuous.
+
+Theorem C18_gap_node_range : forall x,
+  node_range x = (sp_node_start x, sp_node_start x + 2 ^ (level x + 1) - 1).
+Proof. exact gap_node_range. Qed.
+Print Assumptions C18_gap_node_range.
+
+Theorem C18_gap_next_left_ancestor : forall x, next_left_ancestor x = sp_next_left_ancestor x.
+Proof. exact gap_next_left_ancestor. Qed.
+Print Assumptions C18_gap_next_left_ancestor.
+
+(* which range results of a u64 id are u64 values (the model computes in N) *)
+Theorem C18_gap_ranges_fit_u64 : forall x, x < 2 ^ 64 - 1 ->
+  snd (node_range x) < 2 ^ 64 /\ snd (chunk_range x) <= 2 ^ 64.
+Proof. exact gap_ranges_fit_u64. Qed.
+Print Assumptions C18_gap_ranges_fit_u64.
+
+Theorem C18_gap_chunk_range_edge :
+  2 ^ 64 - 2 < 2 ^ 64 - 1 /\ snd (chunk_range (2 ^ 64 - 2)) = 2 ^ 64 /\
+  snd (chunk_range (2 ^ 63 - 1)) = 2 ^ 64.
+Proof. exact gap_chunk_range_edge. Qed.
+Print Assumptions C18_gap_chunk_range_edge.
+
+(* -- counts below, post-order offsets and ranges: every id with x + 1 < 2^64 -- *)
+Theorem C18_gap_count_below : forall x, x < 2 ^ 64 - 1 -> count_below x = 2 ^ (level x + 1) - 2.
+Proof. exact gap_count_below. Qed.
+Print Assumptions C18_gap_count_below.
+
+Theorem C18_gap_post_order_offset : forall x, x < 2 ^ 64 - 1 ->
+  post_order_offset_node x = sp_post_offset x.
+Proof. exact gap_post_order_offset. Qed.
+Print Assumptions C18_gap_post_order_offset.
+
+Theorem C18_gap_post_order_range : forall x, x < 2 ^ 64 - 1 ->
+  post_order_range x = (sp_post_offset x - (2 ^ (level x + 1) - 2), sp_post_offset x + 1).
+Proof. exact gap_post_order_range. Qed.
+Print Assumptions C18_gap_post_order_range.
+
+(* refuted at u64::MAX: neg64 wraps in the model; self.0 + 1 overflows in the Rust *)
+Theorem C18_gap_count_below_top_refuted : exists x,
+  x = 2 ^ 64 - 1 /\ count_below x = 0 /\ 2 ^ (level x + 1) - 2 = 2 ^ 65 - 2 /\
+  post_order_offset_node x = 0 /\ sp_post_offset x = 2 ^ 65 - 2 /\
+  post_order_range x = (0, 1).
+Proof. exact gap_count_below_top_refuted. Qed.
+Print Assumptions C18_gap_count_below_top_refuted.
+
+(* -- block size conversion: every shift -- *)
+Theorem C18_gap_add_block_size : forall x n,
+  add_block_size x n = (if n <=? level x then Some (x / 2 ^ n) else None).
+Proof. exact gap_add_block_size. Qed.
+Print Assumptions C18_gap_add_block_size.
+
+Theorem C18_gap_subtract_add : forall y n, (y + 1) * 2 ^ n <= 2 ^ 64 ->
+  add_block_size (subtract_block_size y n) n = Some y /\
+  level (subtract_block_size y n) = level y + n /\
+  sp_index (subtract_block_size y n) = sp_index y.
+Proof. exact gap_subtract_add. Qed.
+Print Assumptions C18_gap_subtract_add.
+
+Theorem C18_gap_add_subtract : forall x y n, x < 2 ^ 64 ->
+  add_block_size x n = Some y -> subtract_block_size y n = x.
+Proof. exact gap_add_subtract. Qed.
+Print Assumptions C18_gap_add_subtract.
+
+(* the bound of C18_gap_subtract_add is exact *)
+Theorem C18_gap_subtract_add_tight : forall y n, 2 ^ 64 < (y + 1) * 2 ^ n ->
+  add_block_size (subtract_block_size y n) n <> Some y.
+Proof. exact gap_subtract_add_tight. Qed.
+Print Assumptions C18_gap_subtract_add_tight.
+
+Theorem C18_gap_subtract_add_refuted : exists y n,
+  y = 2 ^ 63 /\ n = 1 /\ y < 2 ^ 64 /\ subtract_block_size y n = 1 /\
+  add_block_size (subtract_block_size y n) n = Some 0 /\
+  add_block_size (subtract_block_size y n) n <> Some y.
+Proof. exact gap_subtract_add_refuted. Qed.
+Print Assumptions C18_gap_subtract_add_refuted.
+
+Theorem C18_gap_add_subtract_nonvacuous :
+  2 ^ 64 - 1 < 2 ^ 64 /\ add_block_size (2 ^ 64 - 1) 64 = Some 0 /\
+  2 ^ 63 - 1 < 2 ^ 64 /\ add_block_size (2 ^ 63 - 1) 10 = Some (2 ^ 53 - 1) /\
+  subtract_block_size (2 ^ 53 - 1) 10 = 2 ^ 63 - 1.
+Proof. exact gap_add_subtract_nonvacuous. Qed.
+Print Assumptions C18_gap_add_subtract_nonvacuous.
+
+Theorem C18_gap_subtract_add_nonvacuous :
+  (2 ^ 54 - 1 + 1) * 2 ^ 10 <= 2 ^ 64 /\ subtract_block_size (2 ^ 54 - 1) 10 = 2 ^ 64 - 1 /\
+  (2 ^ 53 - 1 + 1) * 2 ^ 10 <= 2 ^ 64 /\ subtract_block_size (2 ^ 53 - 1) 10 = 2 ^ 63 - 1.
+Proof. exact gap_subtract_add_nonvacuous. Qed.
+Print Assumptions C18_gap_subtract_add_nonvacuous.
+
+(* -- post-order offsets against the explicit enumeration: all heights up to 63 -- *)
+Theorem C18_gap_post_order_enum : forall (h : nat) x, (h <= 63)%nat -> x < 2 ^ (N.of_nat h + 1) - 1 ->
+  nth_error (complete_post h 0) (N.to_nat (post_order_offset_node x)) = Some x.
+Proof. exact gap_post_order_enum. Qed.
+Print Assumptions C18_gap_post_order_enum.
+
+(* -- restricted_parent / right_descendant: no bound on x -- *)
+Theorem C18_gap_restricted_parent : forall x len p, restricted_parent x len = Some p ->
+  p < len /\ level x < level p /\ sp_node_start p <= x /\ x < sp_node_start p + 2 ^ (level p + 1) - 1.
+Proof. exact gap_restricted_parent. Qed.
+Print Assumptions C18_gap_restricted_parent.
+
+Theorem C18_gap_right_descendant : forall x len d, right_descendant x len = Some d ->
+  d < len /\ level d < level x /\ x < d /\ d < sp_node_start x + 2 ^ (level x + 1) - 1.
+Proof. exact gap_right_descendant. Qed.
+Print Assumptions C18_gap_right_descendant.
+
+Theorem C18_gap_restricted_parent_none : forall x len, restricted_parent x len = None ->
+  forall p, (level x < level p /\ level p <= 63 /\
+             sp_node_start p <= x < sp_node_start p + 2 ^ (level p + 1) - 1) -> len <= p.
+Proof. exact gap_restricted_parent_none. Qed.
+Print Assumptions C18_gap_restricted_parent_none.
+
+Theorem C18_gap_restricted_parent_nonvacuous :
+  restricted_parent (2 ^ 64 - 2) (2 ^ 64 - 1) = Some (2 ^ 64 - 3) /\
+  restricted_parent (2 ^ 64 - 2) (2 ^ 63) = Some (2 ^ 63 - 1) /\
+  right_descendant (2 ^ 63 - 1) (2 ^ 63 + 5) = Some (2 ^ 63 + 3).
+Proof. exact gap_restricted_parent_nonvacuous. Qed.
+Print Assumptions C18_gap_restricted_parent_nonvacuous.
+
+Theorem C18_gap_restricted_parent_none_nonvacuous :
+  restricted_parent (2 ^ 64 - 2) 1 = None /\
+  level (2 ^ 64 - 2) < level (2 ^ 63 - 1) /\ level (2 ^ 63 - 1) <= 63 /\
+  sp_node_start (2 ^ 63 - 1) <= 2 ^ 64 - 2 /\
+  2 ^ 64 - 2 < sp_node_start (2 ^ 63 - 1) + 2 ^ (level (2 ^ 63 - 1) + 1) - 1.
+Proof. exact gap_restricted_parent_none_nonvacuous. Qed.
+Print Assumptions C18_gap_restricted_parent_none_nonvacuous.
+
+(* -- agreement with the explicit enumeration of the complete subtree below x -- *)
+(* the enumeration follows the child relation *)
+Theorem C18_gap_subtree_enum_leaf : forall x, level x = 0 ->
+  complete_post (N.to_nat (level x)) (sp_node_start x) = [x].
+Proof. exact gap_subtree_enum_leaf. Qed.
+Print Assumptions C18_gap_subtree_enum_leaf.
+
+Theorem C18_gap_subtree_enum_root : forall x, 0 < level x ->
+  sp_node_start (sp_left x) = sp_node_start x /\
+  sp_node_start (sp_right x) = mid x /\
+  complete_post (N.to_nat (level x)) (sp_node_start x) =
+    complete_post (N.to_nat (level (sp_left x))) (sp_node_start (sp_left x)) ++
+    complete_post (N.to_nat (level (sp_right x))) (sp_node_start (sp_right x)) ++ [x].
+Proof. exact gap_subtree_enum_root. Qed.
+Print Assumptions C18_gap_subtree_enum_root.
+
+Theorem C18_gap_subtree_enum_last : forall x, exists l,
+  complete_post (N.to_nat (level x)) (sp_node_start x) = l ++ [x].
+Proof. exact gap_subtree_enum_last. Qed.
+Print Assumptions C18_gap_subtree_enum_last.
+
+(* node_range is exactly the set of ids listed, each listed once *)
+Theorem C18_gap_node_range_enum : forall x y,
+  In y (complete_post (N.to_nat (level x)) (sp_node_start x)) <->
+  fst (node_range x) <= y < snd (node_range x).
+Proof. exact gap_node_range_enum. Qed.
+Print Assumptions C18_gap_node_range_enum.
+
+Theorem C18_gap_subtree_enum_NoDup : forall x,
+  NoDup (complete_post (N.to_nat (level x)) (sp_node_start x)).
+Proof. exact gap_subtree_enum_NoDup. Qed.
+Print Assumptions C18_gap_subtree_enum_NoDup.
+
+Theorem C18_gap_count_below_enum : forall x, x < 2 ^ 64 - 1 ->
+  N.of_nat (length (complete_post (N.to_nat (level x)) (sp_node_start x))) = count_below x + 1.
+Proof. exact gap_count_below_enum. Qed.
+Print Assumptions C18_gap_count_below_enum.
+
+(* the subtree enumeration is a contiguous segment of the enumeration of any complete tree
+   containing the node, and post_order_range cuts out exactly that segment *)
+Theorem C18_gap_subtree_enum_segment : forall (h : nat) x, x < 2 ^ (N.of_nat h + 1) - 1 ->
+  exists pre suf,
+    complete_post h 0 = pre ++ complete_post (N.to_nat (level x)) (sp_node_start x) ++ suf /\
+    N.of_nat (length pre) = sp_post_offset x - (2 ^ (level x + 1) - 2).
+Proof. exact gap_subtree_enum_segment. Qed.
+Print Assumptions C18_gap_subtree_enum_segment.
+
+Theorem C18_gap_post_order_range_enum : forall (h : nat) x, (h <= 63)%nat -> x < 2 ^ (N.of_nat h + 1) - 1 ->
+  firstn (N.to_nat (snd (post_order_range x) - fst (post_order_range x)))
+         (skipn (N.to_nat (fst (post_order_range x))) (complete_post h 0)) =
+  complete_post (N.to_nat (level x)) (sp_node_start x).
+Proof. exact gap_post_order_range_enum. Qed.
+Print Assumptions C18_gap_post_order_range_enum.
+
+Theorem C18_gap_post_order_range_enum_nonvacuous :
+  (3 <= 63)%nat /\ 9 < 2 ^ (N.of_nat 3 + 1) - 1 /\ post_order_range 9 = (7, 10) /\
+  complete_post 3 0 = [0; 2; 1; 4; 6; 5; 3; 8; 10; 9; 12; 14; 13; 11; 7] /\
+  complete_post (N.to_nat (level 9)) (sp_node_start 9) = [8; 10; 9].
+Proof. exact gap_post_order_range_enum_nonvacuous. Qed.
+Print Assumptions C18_gap_post_order_range_enum_nonvacuous.
